@@ -91,6 +91,24 @@ def _resolution(draw):
 
 
 @st.composite
+def _half(draw):
+    """float16: long spans (hundreds of time units: squares overflow at 256) and short ones, steps of either sign up to 3 x the
+    remaining distance, explicit fixed-step and low-order adaptive methods"""
+    method = draw(st.sampled_from(["RK4Solver", "EulerSolver", "MidpointSolver", "HeunEulerSolver", "SymplecticEulerSolver", "RK45CKSolver"]))
+    fam = M.family(M.get(method))
+    big = draw(st.booleans())
+    t0 = float(np.float16(draw(st.sampled_from([0.0, 0.0, -300.0, 100.0, 2.0]))))
+    L = float(np.float16(draw(st.sampled_from([1460.0, 900.0, 300.0, 2000.0] if big else [1.0, 8.0, 0.5, 30.0]))))
+    direction = draw(st.sampled_from([1.0, -1.0]))
+    tf = float(np.float16(t0 + direction * L))
+    dt = float(np.float16(abs(tf - t0) * draw(st.sampled_from([0.27, 0.4, 0.125, 0.06, 0.9, 1.0]))))
+    n = 2 if fam == "splitting" else 1
+    prob = dict(kind="lin", A=[[0.0, 1.0], [0.0, 0.0]] if n == 2 else [[0.0]], horizon=1.0)      # constant states (q' = p = 0): the time axis is what is probed
+    return dict(part="runs", method=method, dtype="float16", prob=prob, y0=[1.0, 0.0][:n] if n == 2 else [1.0], t0=t0, tf=tf, dt=dt * draw(st.sampled_from([1.0, -1.0])),
+                rtol=1e-2, atol=1e-2, dense=draw(st.booleans()), ops=[["integrate"]] + ([["integrate_to", draw(st.sampled_from([0.5, 0.0, 1.5]))]] if draw(st.booleans()) else []))
+
+
+@st.composite
 def _long(draw):
     method = draw(st.sampled_from(["EulerSolver", "HeunsSolver", "MidpointSolver", "SymplecticEulerSolver"]))
     nsteps = draw(st.integers(5001, 12000))
@@ -105,6 +123,7 @@ def parts(tier):
     q = tier == "quick"
     return [Part("runs", strategy=_runs(), examples=1500 if q else 30000, timeout=300),
             Part("resolution", strategy=_resolution(), examples=200 if q else 3000, timeout=300),
+            Part("half", strategy=_half(), examples=200 if q else 3000, timeout=300),
             Part("long", strategy=_long(), examples=8 if q else 64, timeout=600, shards=8 if q else 16)]
 
 
